@@ -356,7 +356,11 @@ func genRandom(seed uint64, count int) []Scenario {
 		default:
 			sc.Hello.First, sc.Hello.OtherCode = "other", pick(r, wrongCodes[1:])
 		}
-		sc.Hello.Realm = pick(r, []string{"realm1", "realm1", "realm1", "realm1", "realm1", "realm2", "new.realm", "NEW_realm", "bad realm", "a..b", "", "x#y", "realm1."})
+		if r.chance(72) {
+			sc.Hello.Realm = "realm1"
+		} else {
+			sc.Hello.Realm = pick(r, []string{"realm2", "new.realm", "new.realm", "NEW_realm", "bad realm", "a..b", "", "x#y", "realm1."})
+		}
 		// HELLO details
 		d := map[string]any{}
 		switch x := r.n(100); {
